@@ -29,7 +29,7 @@ def run_case(case):
     from vf.oracle import structure
 
     r = common.rng(ID, case["seed"], case["i"])
-    which = ["c04", "c04", "c02", "c01", "c03"][case["i"] % 5]
+    which = ["c04", "c04", "c02", "c01", "c03", "c02", "dotted-names"][case["i"] % 7]
     sub = dict(case)
     pngs = None
     use_fn = False
@@ -41,6 +41,19 @@ def run_case(case):
             res_px = cfg["bitmap_resolution"]
             pngs = [c04.make_png((max(1, min(255, round(res_px * s["aspect"][0] / s["aspect"][1]))), res_px), s["colour"], i) for i, s in enumerate(sources)]
         use_fn = True
+    elif which == "dotted-names":
+        # glyph names as a custom glyph map (or a font given to maximum_color) may spell them: dots, one name a dotted
+        # prefix of another, names that look like nanoemoji's own layer names - with shapes shared between them
+        svgs, _ = svggen.recurrence_set(r, r.randint(3, 6), svggen.FontPalette(r), same_vb=True, tkinds=["translate", "translate", "uscale", "mirror"])
+        pool = ["base", "smile.alt", "smile", "smile.alt.1", "a.b.c", "a.b", "a", "x.0", "x", "g_41.0", "glyph1", "y.notdef"]
+        r.shuffle(pool)
+        cfg = svggen.font_config(r, ("picosvg", "picosvg", "picosvgz", "glyf_colr_1", "cff_colr_1", "glyf_colr_0", "untouchedsvg"), user_transform=False, small_upem=False)
+        cfg["reuse_tolerance"] = 0.1
+        solid = cfg["color_format"].endswith("colr_0")
+        if solid:
+            svgs, _ = svggen.recurrence_set(r, len(svgs), svggen.FontPalette(r), same_vb=True, gradients=False, tkinds=["translate", "uscale"])
+        cps = r.sample(range(0x1F600, 0x1F680), len(svgs))
+        sources = [{"svg": s_, "codepoints": [cp], "glyph_name": nm} for s_, cp, nm in zip(svgs, cps, pool)]
     elif which == "c02":
         sources, cfg, _ = c02.gen_case(sub)
     elif which == "c01":
